@@ -19,7 +19,10 @@ var c14Alpha = []int64{0, 1, -1, 2, -2, 3, (1 << 26) + 1, -((1 << 26) + 1), 1 <<
 // difference alphabet for productsAreEqual
 var c14Diff = []int64{0, 1, -1, 2, -2, 3, -3, (1 << 26) + 1, -((1 << 26) + 1), 1 << 29, -(1 << 29), (1 << 30), -(1 << 30), (1 << 30) - 1, -((1 << 30) - 1),
 	// multiples of 2^32: products that agree in their low 64 bits and differ only in the high word
-	1 << 32, -(1 << 32), 1 << 33, -(1 << 33), 3 << 32, -(3 << 32)}
+	1 << 32, -(1 << 32), 1 << 33, -(1 << 33), 3 << 32, -(3 << 32),
+	// large operands with many significant bits in both halves, and their doubles (equal products exist:
+	// 2u*v = u*2v), so every partial product of the 64x64 multiplication carries
+	0x29ABCDEF1, -0x29ABCDEF1, 2 * 0x29ABCDEF1, 0x587654321, -0x587654321, 2 * 0x587654321, 0xFFFFFFFF, 0x1FFFFFFFF, 3 * 0x29ABCDEF1, 3 * 0xFFFFFFFF}
 
 func alphaPt(i uint64) Pt {
 	n := uint64(len(c14Alpha))
@@ -145,6 +148,41 @@ func c14Scopes(tier string) []*drv.Scope {
 	out = append(out, areaScope("area/3-point paths over A^2", nP*nP*nP, 2, func(idx uint64, buf Path) Path {
 		return append(buf[:0], alphaPt(idx%nP), alphaPt((idx/nP)%nP), alphaPt(idx/(nP*nP)))
 	}))
+	// paths that go round a base polygon several times at full range: twice the area grows past 2^63 (and, at 8
+	// turns of the full square, to 2^64) although every coordinate stays within +-2^29
+	{
+		const M = int64(1) << 29
+		bases := []Path{
+			{{X: -M, Y: -M}, {X: M, Y: -M}, {X: M, Y: M}, {X: -M, Y: M}},
+			{{X: -M, Y: -M}, {X: M, Y: -M + 3}, {X: M - 1, Y: M}, {X: -M + 7, Y: M - 5}},
+			{{X: -M, Y: -M}, {X: M, Y: -M}, {X: 0, Y: M}},
+			{{X: 0, Y: 0}, {X: M, Y: 1}, {X: M - 1, Y: M}, {X: 2, Y: M - 3}},
+		}
+		out = append(out, areaScope("area/1..12 turns round 4 full-range polygons, both directions", uint64(len(bases))*12*2, 2, func(idx uint64, buf Path) Path {
+			b := bases[idx%uint64(len(bases))]
+			turns := int((idx/uint64(len(bases)))%12) + 1
+			rev := idx/(uint64(len(bases))*12) == 1
+			buf = buf[:0]
+			for t := 0; t < turns; t++ {
+				for i := range b {
+					// the t-th turn is drawn one unit further in, so that no vertex repeats
+					q := b[i]
+					if q.X > 0 {
+						q.X -= int64(t)
+					} else if q.X < 0 {
+						q.X += int64(t)
+					}
+					buf = append(buf, q)
+				}
+			}
+			if rev {
+				for i, j := 0, len(buf)-1; i < j; i, j = i+1, j-1 {
+					buf[i], buf[j] = buf[j], buf[i]
+				}
+			}
+			return buf
+		}))
+	}
 	// (c) PointInPolygon
 	pipScope := func(e enum.Embed, k, n, level int) *drv.Scope {
 		var buf Path
@@ -262,8 +300,8 @@ func init() {
 	drv.Register(&drv.Check{
 		ID:    "C14",
 		Title: "Geometric measures and predicates are exact",
-		Rule: "complete enumeration of: all point triples over an 11-value coordinate alphabet (0,+-1,+-2,3,+-(2^26+1),+-2^29,2^29-1) through isCollinear and through TrimCollinear64 on the closed 3-point path; all quadruples of a 21-value difference alphabet (0, +-1..3, +-(2^26+1), +-2^29, +-2^30, +-(2^30-1), +-2^32, +-2^33, +-3*2^32: the last group gives products that differ only in the high 64-bit word) through productsAreEqual; " +
-			"Area64/AreaPaths64/IsPositive64 on P(3,3..6) under unit and 2^28 embeddings and on all 3-point paths over the alphabet; PointInPolygon for every lattice point (-1..k)^2 against every polygon of P(4,3..5) and P(3,6) under unit/stride-10/2^28 embeddings; GetBounds64 on P(3,1..5). Oracle: math/big shoelace, exact cross products, exact on-segment + crossing parity. " +
+		Rule: "complete enumeration of: all point triples over an 11-value coordinate alphabet (0,+-1,+-2,3,+-(2^26+1),+-2^29,2^29-1) through isCollinear and through TrimCollinear64 on the closed 3-point path; all quadruples of a 31-value difference alphabet (0, +-1..3, +-(2^26+1), +-2^29, +-2^30, +-(2^30-1), +-2^32, +-2^33, +-3*2^32: these give products that differ only in the high 64-bit word; 0x29ABCDEF1, 0x587654321, their doubles and triples, 2^32-1, 2^33-1: every partial product of the 64x64 multiplication carries) through productsAreEqual; " +
+			"Area64/AreaPaths64/IsPositive64 on P(3,3..6) under unit and 2^28 embeddings, on all 3-point paths over the alphabet and on paths going 1..12 times round four full-range (+-2^29) polygons in both directions (twice the area passes 2^63 and 2^64); PointInPolygon for every lattice point (-1..k)^2 against every polygon of P(4,3..5) and P(3,6) under unit/stride-10/2^28 embeddings; GetBounds64 on P(3,1..5). Oracle: math/big shoelace, exact cross products, exact on-segment + crossing parity. " +
 			"non-trivial = triple base with a proper collinear triple / non-zero-area path / polygon with a lattice point strictly inside",
 		Assumptions:      []string{"operand alphabet is finite; values between the listed magnitudes are not enumerated", "reference predicates use math/big or int64 products that provably fit"},
 		RequiredCounters: []string{"collinear_distinct_triples_seen", "nonzero_area_paths", "polygons_with_lattice_point_inside", "polygons_with_lattice_point_on_boundary"},
